@@ -315,23 +315,41 @@ Definition is_module_group (g : group_entry) : bool :=
 
 Definition path_eqb (a b : list str) : bool := list_eqb str_eqb a b.
 
-(** The [bench_group] module with the given raw path, if any. *)
-Definition find_module_group (groups : list group_entry) (key : list str) : option group_entry :=
-  find (fun g => is_module_group g && path_eqb (group_key g) key) groups.
+(** Equal paths, the last component compared modulo a leading "r#": a
+    [#[divan::bench_group]] on [mod r#try] is the group of the module that
+    [module_path!()] spells [try] (edition 2015) or [r#try] (later editions). *)
+Fixpoint npath_eqb (a b : list str) : bool :=
+  match a, b with
+  | [], [] => true
+  | x :: a', y :: b' =>
+      match a', b' with
+      | [], [] => str_eqb (strip_raw x) (strip_raw y)
+      | _, _ => str_eqb x y && npath_eqb a' b'
+      end
+  | _, _ => false
+  end.
 
-(** For each component of an entry's raw path: the group standing there. *)
-Fixpoint module_chain (groups : list group_entry) (pre : list str) (comps : list str)
+(** The [bench_group] module standing at a raw path, if any; [mt g key]: group
+    [g] is the group of the module at [key]. *)
+Definition find_module_group_by (mt : group_entry -> list str -> bool) (groups : list group_entry) (key : list str)
+  : option group_entry :=
+  find (fun g => is_module_group g && mt g key) groups.
+Definition find_module_group (groups : list group_entry) : list str -> option group_entry :=
+  find_module_group_by (fun g key => npath_eqb (group_key g) key) groups.
+
+(** For each component of an entry's raw path: the group standing there ([fm]: lookup of module groups). *)
+Fixpoint module_chain (fm : list str -> option group_entry) (pre : list str) (comps : list str)
   : list (str * option group_entry) :=
   match comps with
   | [] => []
-  | c :: tl => (c, find_module_group groups (pre ++ [c])) :: module_chain groups (pre ++ [c]) tl
+  | c :: tl => (c, fm (pre ++ [c])) :: module_chain fm (pre ++ [c]) tl
   end.
 
-Definition entry_chain (groups : list group_entry) (e : any_entry) : list (str * option group_entry) :=
+Definition entry_chain (fm : list str -> option group_entry) (e : any_entry) : list (str * option group_entry) :=
   match e with
-  | ABench b => module_chain groups [] (module_components (b_meta b))
+  | ABench b => module_chain fm [] (module_components (b_meta b))
   | AGeneric g ge =>
-      module_chain groups [] (module_components (g_meta g))
+      module_chain fm [] (module_components (g_meta g))
       ++ [(m_raw (g_meta g), Some g)]
       ++ match ge_kind ge with
          | GConst (Some t) _ => [(type_display t, None)]
@@ -349,9 +367,9 @@ Definition chain_path (ch : list (str * option group_entry)) : str :=
 Definition chain_options (ch : list (str * option group_entry)) : option opts :=
   fold_left (fun o x => merge_opts o (chain_opts x)) ch None.
 
-Definition flat_case (c : cfg) (groups : list group_entry) (e : any_entry)
+Definition flat_case (c : cfg) (fm : list str -> option group_entry) (e : any_entry)
   : list (N * str * option (N * value)) :=
-  let ch := entry_chain groups e in
+  let ch := entry_chain fm e in
   let path := join_path (chain_path ch) (entry_display e) in
   let options := merge_opts (chain_options ch) (m_opts (entry_meta e)) in
   if leaf_ignored c options then []
@@ -363,7 +381,7 @@ Definition flat_case (c : cfg) (groups : list group_entry) (e : any_entry)
        end.
 
 Definition flat_exec (c : cfg) (benches : list bench_entry) (groups : list group_entry) :=
-  flat_map (flat_case c groups) (all_entries benches groups).
+  flat_map (flat_case c (find_module_group groups)) (all_entries benches groups).
 
 (** Boolean specification for C12, evaluated on what the implementation ran:
     the executed (path, entry, argument) triples, rendered as strings by the
@@ -394,8 +412,8 @@ Definition c17_once_sb (counts : list N) : bool := forallb (N.eqb 1) counts.
 (** What [--list] shows of one entry under the flat semantics: one leaf at the
     entry's display path if the filter keeps it (for argument entries: if it
     keeps at least one argument), marked ignored (1) or not (2). *)
-Definition flat_list_case (c : cfg) (groups : list group_entry) (e : any_entry) : list (N * str) :=
-  let ch := entry_chain groups e in
+Definition flat_list_case (c : cfg) (fm : list str -> option group_entry) (e : any_entry) : list (N * str) :=
+  let ch := entry_chain fm e in
   let path := join_path (chain_path ch) (entry_display e) in
   let options := merge_opts (chain_options ch) (m_opts (entry_meta e)) in
   let kept := match entry_runner e with
@@ -404,7 +422,7 @@ Definition flat_list_case (c : cfg) (groups : list group_entry) (e : any_entry) 
               end in
   if kept then [(if leaf_ignored c options then 1 else 2, path)] else [].
 Definition flat_list (c : cfg) (benches : list bench_entry) (groups : list group_entry) :=
-  flat_map (flat_list_case c groups) (all_entries benches groups).
+  flat_map (flat_list_case c (find_module_group groups)) (all_entries benches groups).
 
 (** * Which action the command line selects ([Divan::config_with_args], divan.rs:523-544,
     and the clap declaration in cli.rs: [--test] and [--list] conflict).
